@@ -12,7 +12,7 @@ COMMON_TRUSTED_BASE = [
     'axioms: none - Print Assumptions under every theorem of the property file says "Closed under the global context" (re-checked on every run); coqchk -o (thorough tier) reports Axioms <none>',
     'the hand-written Gallina model of the anchored code: tied to /repo only by the differential run of this check (generators, implementation driver, canonicalisation, printer Base/Str.v show and its parser harness/lib/terms.py are trusted)',
     'modelled, not verified: CPython (generator protocol, immediate finalisation of dropped generators, exec/compile, repr, recursion limit), the ANTLR 4.9.1 runtime and the checked-in generated lexer/parser, click',
-    'the repaired defects D1-D24 of /repo (fix: commits, DESIGN.md section 2): the theorems are about the repaired tree',
+    'the repaired defects D1-D26 of /repo (fix: commits, DESIGN.md section 2): the theorems are about the repaired tree',
 ]
 COMMON_ASSUMPTIONS = [
     'the specification objects of the property file (reference semantics, list specs, recogniser of the grammar) say what the property text says',
